@@ -117,6 +117,14 @@ def direct_ops():
         async with st['res'].claim(a=1, b=1):
             st['mark']('inside')
 
+    async def borrow_nothing(st):
+        async with st['res'].borrow(a=0):
+            st['mark']('inside')
+
+    async def claim_nothing(st):
+        async with st['res'].claim(a=0, b=0):
+            st['mark']('inside')
+
     async def cap_borrow(st):
         async with st['cap'].borrow(a=2):
             st['mark']('inside')
@@ -171,6 +179,10 @@ def direct_ops():
         ('claim available resources and give them back', claim_enter_exit),
         ('borrow from capacities', cap_borrow),
         ('nested borrow', nested_borrow),
+        ('increase resources by nothing', lambda st: st['res'].increase(a=0)),
+        ('decrease resources by nothing', lambda st: st['res'].decrease(a=0, b=0)),
+        ('borrow nothing and give it back', borrow_nothing),
+        ('claim nothing and give it back', claim_nothing),
         ('increase resources', lambda st: st['res'].increase(a=1)),
         ('decrease resources', lambda st: st['res'].decrease(a=1)),
         ('set resources', lambda st: st['res'].set(a=3)),
